@@ -186,13 +186,60 @@ Proof.
   induction 1 as [|m l Wm W IH]; intros xs WI; cbn [chain_filter]; auto.
   rewrite member_filter_explicit by assumption. rewrite IH by now apply wf_items_filter. reflexivity.
 Qed.
+(* ---- the single-pass filter of the code (SetsModel.one_pass) is the chain of member filters, for ALL members (no wf premise: escapes included) *)
+Fixpoint mfilter (b : bool) (m : member) (xs : list item) : option (list item) :=
+  match xs with
+  | [] => Some []
+  | x :: t => match contains_v (m_sp m) (m_ov m) (Some b) (snd x) with
+              | Ans true => option_map (cons x) (mfilter b m t)
+              | Ans false => mfilter b m t
+              | _ => None
+              end
+  end.
+Lemma contains_v_true_not_deferred sp o b (x : item) : contains_v sp o (Some b) (snd x) = Ans true ->
+  it_pre x && negb (truthy (Some b) || effective_pre o sp) = false.
+Proof.
+  unfold contains_v, it_pre. cbn [truthy]. destruct (is_prerelease (snd x)); cbn [andb]; auto. destruct b; cbn [negb orb]; auto. discriminate.
+Qed.
+Lemma sf_loop_explicit sp o b xs : forall y out,
+  sf_loop sp o (Some b) b xs (y, out, []) =
+  match mfilter b {| m_sp := sp; m_ov := o |} xs with Some r => Some (y || nonempty_l r, rev r ++ out, []) | None => None end.
+Proof.
+  induction xs as [|x xs IH]; intros y out; cbn [sf_loop mfilter m_sp m_ov].
+  - cbn. now rewrite orb_false_r.
+  - destruct (contains_v sp o (Some b) (snd x)) as [[|]| |] eqn:E; auto.
+    rewrite (contains_v_true_not_deferred sp o b x E), IH. cbn [m_sp m_ov].
+    destruct (mfilter b _ xs) as [r|]; cbn [option_map]; auto. cbn [nonempty_l rev]. rewrite <- app_assoc. cbn [app]. now rewrite orb_true_r.
+Qed.
+Lemma spec_filter_explicit m b xs : spec_filter_v (m_sp m) (m_ov m) (Some b) xs = mfilter b m xs.
+Proof.
+  unfold spec_filter_v. rewrite sf_loop_explicit. destruct m as [sp o]. cbn [m_sp m_ov].
+  destruct (mfilter b _ xs) as [r|]; auto. f_equal. destruct (negb _); cbn [rev]; rewrite ?app_nil_r; apply rev_involutive.
+Qed.
+Definition obind' {A B} (x : option A) (f : A -> option B) : option B := match x with Some a => f a | None => None end.
+Lemma one_pass_nil b xs : one_pass b [] xs = Some xs.
+Proof. induction xs as [|x xs IH]; cbn [one_pass all_members]; auto. now rewrite IH. Qed.
+Lemma one_pass_cons b m l xs : one_pass b (m :: l) xs = obind' (mfilter b m xs) (one_pass b l).
+Proof.
+  induction xs as [|x xs IH]; cbn [one_pass all_members mfilter]; auto.
+  destruct (contains_v (m_sp m) (m_ov m) (Some b) (snd x)) as [[|]| |]; cbn [obind']; auto.
+  rewrite IH. destruct (mfilter b m xs) as [r|]; cbn [option_map obind' one_pass].
+  - reflexivity.
+  - destruct (all_members (Some b) (snd x) l) as [[|]| |]; reflexivity.
+Qed.
+Theorem chain_is_one_pass b l : forall xs, chain_filter b l xs = one_pass b l xs.
+Proof.
+  induction l as [|m l IH]; intros xs; cbn [chain_filter].
+  - now rewrite one_pass_nil.
+  - rewrite one_pass_cons, spec_filter_explicit. destruct (mfilter b m xs); cbn [obind']; auto.
+Qed.
 Lemma set_cont_item eff l x : SetModel.set_contains member item it_pre mm (fun y => y) eff false l x = set_cont eff false l (snd x).
 Proof. reflexivity. Qed.
 Theorem set_filter_exact S arg xs : ms S <> [] -> wf_set S -> wf_items xs ->
   set_filter_v S arg xs = Some (filter (fun x => is_true (set_contains_v S arg None (snd x))) xs).
 Proof.
   intros NE W WI. unfold set_filter_v. fold (eff_arg S arg). destruct (ms S) as [|m l] eqn:E; [congruence|]. rewrite <- E in *.
-  rewrite chain_filter_is by assumption. f_equal. rewrite E at 1. rewrite (SetModel.C06_set_filter_exact member item it_pre mm (fun y => y)).
+  rewrite <- chain_is_one_pass. rewrite chain_filter_is by assumption. f_equal. rewrite E at 1. rewrite (SetModel.C06_set_filter_exact member item it_pre mm (fun y => y)).
   rewrite <- E. unfold wf_items in WI. rewrite Forall_forall in WI. apply filter_ext_in'. intros x Hx.
   rewrite set_contains_v_ans by auto. rewrite set_cont_item. cbn [truthy is_true]. destruct (set_cont _ false (ms S) (snd x)); reflexivity.
 Qed.
@@ -203,7 +250,7 @@ Proof.
   destruct (ms S) as [|m l] eqn:A, (ms S') as [|m' l'] eqn:B; auto.
   - apply Permutation_nil in P. discriminate.
   - apply Permutation_sym, Permutation_nil in P. discriminate.
-  - rewrite <- A, <- B in *. rewrite !chain_filter_is by assumption. f_equal. now apply SetModel.C06_chain_order_irrelevant.
+  - rewrite <- A, <- B in *. rewrite <- !chain_is_one_pass. rewrite !chain_filter_is by assumption. f_equal. now apply SetModel.C06_chain_order_irrelevant.
 Qed.
 
 (* the empty set *)
@@ -326,6 +373,7 @@ Theorem set_filter_exact_top S arg texts xs : ms S <> [] -> wf_set S -> coerce_f
 Proof.
   intros NE W C. unfold set_filter, lift_filter. rewrite C. destruct (coerce_spec _ _ _ C) as (WI & _). now rewrite set_filter_exact.
 Qed.
+Print Assumptions chain_is_one_pass.
 Print Assumptions spec_filter_exact.
 Print Assumptions set_filter_exact.
 Print Assumptions empty_set_filter.
